@@ -56,3 +56,35 @@ Proof. vm_compute. split; reflexivity. Qed.
 Example C05_example_download :
   owrites false [[97; 13]; [10; 98; 13]] = [SinkWrite [97]; SinkWrite [10; 98]; SinkWrite [13]; SinkFlush].
 Proof. vm_compute. reflexivity. Qed.
+
+(* ---- every receiving call, every state in ASCII type, every server (Ascii_Global.v) ---- *)
+From LibFtp Require Import Decimal Reply Endpoint DataConn DataConn_Proofs Client Client_Proofs Bytes_Global Ascii_Global.
+
+(* what the call hands to the sink is the conversion of what it read from the data connection: when the data loop failed (no
+   flush), the conversion with at most one CR held back; once the sink was flushed, exactly [from_crlf] of all that was read *)
+Theorem C05_call_hands_the_sink_the_conversion_of_what_it_read : forall a w,
+  receives a -> c_type (w_cfg w) = TAscii ->
+  exists tr, w_trace (snd (step w a)) = w_trace w ++ tr /\
+    (count_ev is_flush (ios tr) = O ->
+       exists b, forall tail, sink_bytes (ios tr) ++ from_crlf (cr_if b ++ tail) = from_crlf (net_in_bytes (ios tr) ++ tail)) /\
+    (count_ev is_flush (ios tr) <> O -> sink_bytes (ios tr) = from_crlf (net_in_bytes (ios tr))).
+Proof. exact step_sink_gets_the_conversion. Qed.
+Print Assumptions C05_call_hands_the_sink_the_conversion_of_what_it_read.
+
+Theorem C05_flushed_sink_holds_the_conversion : forall a w tr,
+  receives a -> c_type (w_cfg w) = TAscii ->
+  w_trace (snd (step w a)) = w_trace w ++ tr -> In IoSinkFlush (ios tr) ->
+  sink_bytes (ios tr) = from_crlf (net_in_bytes (ios tr)).
+Proof. exact flushed_sink_holds_the_conversion. Qed.
+Print Assumptions C05_flushed_sink_holds_the_conversion.
+
+Example C05_example_call_completed :
+  let w0 := init_world (mkConfig Passive true TAscii false false) ascii_script in
+  let tr := w_trace (snd (steps w0 [AConnect [104] 21 None; ADownload [102] None None])) in
+  sink_bytes (ios tr) = [97;10;98;13;10;99;13] /\ net_in_bytes (ios tr) = [97;13;10;98;13;13;10;99;13] /\ In IoSinkFlush (ios tr).
+Proof. exact ascii_example. Qed.
+Example C05_example_call_cut :
+  let w0 := init_world (mkConfig Passive true TAscii false false) ascii_cut_script in
+  let tr := w_trace (snd (steps w0 [AConnect [104] 21 None; ADownload [102] None None])) in
+  sink_bytes (ios tr) = [97;10;98] /\ net_in_bytes (ios tr) = [97;13;10;98;13] /\ count_ev is_flush (ios tr) = O.
+Proof. exact ascii_cut_example. Qed.
